@@ -1097,6 +1097,7 @@ class Client():
                         not self.respondent.started and not self.connector.rxbs):
                     # far side closed before any byte of the response: the
                     # request in process can never be answered
+                    self.connector.txbs.clear()  # nor sent on a later connection
                     raise httping.PrematureClosure("Connection closed before"
                                                    " response to request")
                 self.respondent.parse()
